@@ -145,6 +145,12 @@ def shape_glyphs(cubic):
                                              ("k_tightS", (1, 0, 0, 1, 0, 500))]}
         glyphs["compcubic"] = {"width": 600, "components": [("ccircle", (0.5, 0, 0, 0.5, 1.5, 0))]}
     else:
+        # hinted composite that precedes its bases in the glyph order: its hash is computed from the
+        # compiled base glyphs, so glyf must be assembled bases-first (the stored id is stale on
+        # purpose: the program is then dropped, the outline must be unaffected)
+        glyphs["early"] = {"width": 600, "components": [("dA", (1, 0, 0, 1, 0, 0)), ("s_tri", (0.5, 0, 0, 0.5, 1, 1))],
+                           "lib": {"public.truetype.instructions": {"formatVersion": "1", "id": "stale",
+                                                                    "assembly": "PUSHB[ ] 0\nPOP[ ]"}}}
         for s in B.SHAPES:
             if s not in CUBIC_SHAPES:
                 glyphs["s_" + s] = {"width": 600, "contours": B.SHAPES[s]}
@@ -185,6 +191,12 @@ def make_glyphs(c):
         return {".notdef": NOTDEF, "r": {"width": 1, "contours": B.SHAPES["tri"]},
                 "c1": {"width": 1, "components": [("c2", (1, 0, 0, 1, 0, 0)), ("r", (1, 0, 0, 1, 0, 0))]},
                 "c2": {"width": 1, "components": [("c1", (1, 0, 0, 1, 5, 0))]}}
+    if c["part"] == "qline":
+        # a 'qcurve' point that is not preceded by off-curves (legal UFO: it denotes a straight line)
+        return {".notdef": NOTDEF,
+                "ql": {"width": 500, "contours": [[(0, 0, "line"), (100.5, 0, "qcurve"), (100, 50, None),
+                                                   (50, 100, "qcurve")]]},
+                "qc": {"width": 500, "components": [("ql", (1, 0, 0, 1, 10, 0))]}}
     raise ValueError(c["part"])
 
 
@@ -567,9 +579,9 @@ class C02(Property):
                     "dev_singles": ["tri", "cubic", "quad"], "dev_pairs": [], "defcon": "default-only"}
         return {"depth": 0, "tier_name": "thorough", "trie_depth": 3, "palette": B.QUICK_TRANSFORMS,
                 "trie_errupm": [[e, u] for e in ERRS for u in UPMS],
-                "deep": {"d": 3, "shapes": ["tri", "quad"], "variants": VARIANTS, "errupm": [[None, 1000]],
-                         "palette": B.ALL_TRANSFORMS},
-                "deep4": {"d": 4, "shapes": ["tri"], "variants": ["pure", "mixed", "three"]},
+                "deep": {"d": 3, "shapes": ["tri", "cubic", "quad"], "variants": VARIANTS,
+                         "errupm": [[None, 1000]], "palette": B.ALL_TRANSFORMS},
+                "deep4": {"d": 4, "shapes": ["tri"], "variants": ["pure", "shared", "mixed", "three"]},
                 "dev_singles": ["tri", "cubic", "quad", "mixed", "two", "offstart"], "dev_pairs": ["tri"],
                 "defcon": "all-shapes"}
 
@@ -618,6 +630,8 @@ class C02(Property):
                         add(c, part="dev", shape=shape, k=2, module="ufoLib2", needs_cubic=shape in CUBIC_SHAPES)
             if c["err"] is None and c["upm"] == 1000 and c["aq"] and not c["drop"]:
                 add(c, part="cycle", module="ufoLib2")
+            if c["err"] is None and c["upm"] == 1000:
+                add(c, part="qline", module="ufoLib2")
 
         # heaviest fonts first (pure scheduling; the set of states is unchanged)
         def cost(h):
@@ -628,6 +642,16 @@ class C02(Property):
             return n * {"three": 8, "mixed": 4, "shared": 2}.get(c["variant"], 1)
         out.sort(key=lambda h: -cost(h))
         return out
+
+    REQUIRED = ("quad_run_1", "quad_run_2", "quad_run_3", "quad_run_4plus", "cubic_kept", "dropped_oncurves",
+                "flatten_changed", "format_limit_weak", "mixed_3plus_components", "flipped_members",
+                "half_coord_glyphs", "rejected_cubic_in_glyf0", "rejected_cycle", "max_depth_seen_3")
+
+    def finish(self, b, summary):
+        missing = [k for k in self.REQUIRED if not summary["counters"].get(k)]
+        if missing:
+            return [violation("vacuous-exploration", {"missing": missing})]
+        return []
 
     def describe(self, h, b):
         c = dict(h[0])
@@ -654,6 +678,11 @@ class C02(Property):
         except ValueError as e:
             if not c["cc"] and c["aq"] and has_cubic(glyphs) and "cubic Bezier curves" in str(e):
                 return Result([], {"rejected_cubic_in_glyf0": 1}, "rejected-cubic", substates=1, nontrivial=0)
+            raise
+        except AssertionError as e:
+            if c["part"] == "qline":
+                return Result([violation("compile-crash", dict(feat, part="qline", type="AssertionError"),
+                                         message=str(e)[:300], spec=glyphs["ql"])], {}, "crash", substates=1)
             raise
         return self.check_font(c, glyphs, tt, feat)
 
